@@ -1,4 +1,5 @@
 import DoitModel.Proofs.C05Mon
+import DoitModel.Proofs.C05Unmet
 /-! # C05 — failures are contained and never recorded as success
 
 Property theorems only (model: `Model/Run.lean` + `Model/RunFail.lean`; invariants: `Proofs/Run*.lean`,
@@ -76,23 +77,40 @@ theorem C05_continue_never_stops (inp : RunInput) (hc : inp.continue_ = true) (s
   · exact (preach_invF hr).st hc
   · exact (reach_invF hr).st hc
 
-/-- (c), serial runner: with `--continue`, when the run ends without an internal error, every task in the closure of
-    the selection has exactly one terminal report (executed, up-to-date, ignored, or failed/unmet) — the run is not cut
-    short by any failure; and by (a) only tasks that depend on a failed one can be `unmet` … the last part is stated in
-    `C05_continue_complete_full`. -/
-theorem C05_continue_complete_serial (inp : RunInput) (hc : inp.continue_ = true) (s : Sys) (hr : Reach inp s)
-    (hend : s.rpc = .halted) (hhalt : s.halt = .none) (t : Name) (ht : RunCl inp s t) :
-    s.events.countP (Ev.isTerminalOf t) = 1 :=
-  all_processed_serial hr hend hhalt ((reach_invF hr).st hc) t ht
+/-- a task is reported `unmet` only if one of its direct dependencies (as the run determines them: `DepOnE`) has a
+    failure report — so, by induction, only below a task that failed on its own account (all runners) -/
+theorem C05_unmet_has_failed_dep (inp : RunInput) (s : Sys) (hr : PReach inp s ∨ Reach inp s) (t : Name)
+    (h : Ev.failure t .unmet ∈ s.events) : ∃ d k, DepOnE inp s.events t d ∧ Ev.failure d k ∈ s.events := by
+  rcases hr with hr | hr
+  · exact unmet_has_failed_dep (preach_invU hr) (preach_invF hr) h
+  · exact unmet_has_failed_dep (reach_invU hr) (reach_invF hr) h
 
-/-- (c) at full strength; not proved yet: (1) the parallel runners (needs the `free_proc`/`proc_count` accounting
-    invariant, as `C02_all_processed_parallel_full`), (2) "normal report": a task is reported `unmet` only if one of
-    its direct dependencies has a failure report (needs the node invariant `bad_deps ⊆ failed dependencies`).  The
-    monitor `monC05ContinueComplete` evaluates both on every implementation trace. -/
+/-- (c), serial runner, full strength: with `--continue`, when the run ends without an internal error, every task in
+    the closure of the selection has exactly one terminal report (executed, up-to-date, ignored, or failed/unmet) — no
+    failure cuts the run short — and the report is `unmet` only for tasks that depend on a task with a failure report;
+    every other closure member gets its normal report -/
+theorem C05_continue_complete_serial (inp : RunInput) (hc : inp.continue_ = true) (s : Sys) (hr : Reach inp s)
+    (hend : s.rpc = .halted) (hhalt : s.halt = .none) :
+    (∀ t, RunCl inp s t → s.events.countP (Ev.isTerminalOf t) = 1) ∧
+    (∀ t, Ev.failure t .unmet ∈ s.events → ∃ d k, DepOnE inp s.events t d ∧ Ev.failure d k ∈ s.events) :=
+  ⟨fun t ht => all_processed_serial hr hend hhalt ((reach_invF hr).st hc) t ht,
+   fun _ h => unmet_has_failed_dep (reach_invU hr) (reach_invF hr) h⟩
+
+/-- (c) for every runner; not proved for the parallel runners yet: "exactly one terminal report for every closure
+    member" needs the `free_proc`/`proc_count` accounting invariant (same gap as `C02_all_processed_parallel_full`).
+    The monitor `monC05ContinueComplete` evaluates the full statement on every implementation trace. -/
 def C05_continue_complete_full : Prop :=
   ∀ (inp : RunInput), inp.continue_ = true → ∀ s, (PReach inp s ∨ Reach inp s) → s.rpc = .halted → s.halt = .none →
     (∀ t, RunCl inp s t → s.events.countP (Ev.isTerminalOf t) = 1) ∧
-    (∀ t, Ev.failure t .unmet ∈ s.events → ∃ d k, DepOn inp t d ∧ Ev.failure d k ∈ s.events)
+    (∀ t, Ev.failure t .unmet ∈ s.events → ∃ d k, DepOnE inp s.events t d ∧ Ev.failure d k ∈ s.events)
+
+/-- what is proved of `C05_continue_complete_full` for the parallel runners: `--continue` never sets `_stop_running`
+    (so `get_next_job` never answers "stop" because of a failure) and `unmet` is reported only below a failed task;
+    missing: that the main loop leaves no closure member unprocessed -/
+theorem C05_continue_complete_partial (inp : RunInput) (hc : inp.continue_ = true) (s : Sys) (hr : PReach inp s) :
+    s.stop = false ∧
+    (∀ t, Ev.failure t .unmet ∈ s.events → ∃ d k, DepOnE inp s.events t d ∧ Ev.failure d k ∈ s.events) :=
+  ⟨(preach_invF hr).st hc, fun _ h => unmet_has_failed_dep (preach_invU hr) (preach_invF hr) h⟩
 
 /-- (d) serial runner without `--continue`: no action starts after the first failure report (of any kind) -/
 theorem C05_serial_stops (inp : RunInput) (hc : inp.continue_ = false) (s : Sys) (hr : Reach inp s)
